@@ -315,6 +315,11 @@ class Emitter:
             lines = self.cvalue(e, env, hint)
             ty = self._last_value_ty
             return Code(t, ty, [f"let {t} ←", lines])
+        if k == "struct":
+            h = getattr(self.u, "struct_handler", None)
+            if h:
+                return h(self, e, env, hint)
+            raise TErr(f"{self.u.name}::{env.fn.name}: struct literal `{'::'.join(e[1])}` has no translation")
         if k == "range":
             raise TErr(f"{self.u.name}::{env.fn.name}: range expression outside an index")
         if k == "str":
@@ -368,6 +373,9 @@ class Emitter:
             lop = {"<": "<", ">": ">", "<=": "≤", ">=": "≥"}[op]
             return Code(f"decide ({ca.val} {lop} {cb.val})", "bool", pre)
         if t == "usize" or t is None:
+            if op == "+" and getattr(self.u, "checked_add", False):
+                tmp = env.fresh()
+                return Code(tmp, "usize", pre + [f"let {tmp} ← {self.u.uadd} {paren(ca.val)} {paren(cb.val)}"])
             if op in ("+", "*", "/", "%"):
                 return Code(f"({ca.val} {op} {cb.val})", "usize", pre)
             if op == "-":
@@ -916,6 +924,10 @@ class Emitter:
                 h = f.get("ops", {}).get(op)
                 if h:
                     new = h.format(old=f"r.{f['lean']}", v=val)
+                elif op in ("+=",) and f["ty"] == "usize" and getattr(self.u, "checked_add", False):
+                    t2 = env.fresh()
+                    return c.pre + [f"let {t2} ← {self.u.uadd} (← {self.u.get}).{f['lean']} {paren(val)}",
+                                    f"{self.u.modify} fun r => {{ r with {f['lean']} := {t2} }}"]
                 elif op in ("+=",) and f["ty"] == "usize":
                     new = f"r.{f['lean']} + {val}"
                 elif op == "-=" and f["ty"] == "usize":
